@@ -251,8 +251,10 @@ CHECKS = {
         ref="7 (C06)",
         note="The offset and reversal laws are also proved through lambda selection for the symmetric V-curve smoother (C06_vcurve_shift, "
              "C06_vcurve_rev: same lambda, curve moved by the constant / reversed) and the offset law through the GCV scan over the "
-             "lambda grid for fixed weights (C06_gcv_scan_shift). Partial: the lifting of the reversal law through "
-             "GCV, of both laws through the asymmetric reweighting (its iteration starts from the zero curve, which is not shift-invariant) and "
+             "lambda grid for fixed weights (C06_gcv_scan_shift); through the asymmetric reweighting both laws are proved for every run that "
+             "settles (C06_expectile_shift / _rev: the settled curve is the unique expectile curve, which moves with the data). "
+             "Partial: the lifting of the reversal law through "
+             "GCV, of both laws through asymmetric runs that use up their 10 passes (its iteration starts from the zero curve, which is not shift-invariant) and "
              "the robust weights is not proved, only checked on the implementation. Tie rules: +-1 on at most max(1, n/50) cells per "
              "pair; a different lambda only when the re-computed criterion is tied to 1e-6. Axioms: real-number axioms of the standard library.",
         technique="Coq proof from the variational characterisation + metamorphic runs on the implementation + bit-exact correspondence"),
